@@ -37,7 +37,7 @@ def run(ctx: Ctx, aspect="verdict"):
     s.finish()
 
     # seeded random
-    n = 30000 if quick else 400000
+    n = ctx.size(30000, 400000)
     for name, comps in (("random-plain", gen.PLAIN), ("random-adversarial", gen.ADVERSARIAL)):
         s = Stream(ctx, name)
         rng = ctx.rng(name)
@@ -49,6 +49,6 @@ def run(ctx: Ctx, aspect="verdict"):
         s.finish()
     # non-strict rules: outside the oracle, compared with the model for information (drift)
     s = Stream(ctx, "random-nonstrict(model only)")
-    judge_rule_stream(ctx, s, evaluate(ctx, random_cases(ctx.rng("ns"), 3000 if quick else 30000, strict=False)), aspect)
+    judge_rule_stream(ctx, s, evaluate(ctx, random_cases(ctx.rng("ns"), ctx.size(3000, 30000), strict=False)), aspect)
     s.finish()
     return RULE
